@@ -337,6 +337,11 @@ func (db *DB) Merge() error {
 						skipEntry = true
 					} else if r.H.fileID == int64(pendingMergeFId) && r.H.dataPos > uint64(off) {
 						skipEntry = true
+					} else if entry.Meta.ds == DataStructureBPTree &&
+						(r.H.fileID != int64(pendingMergeFId) || r.H.dataPos != uint64(off)) {
+						// the index points at an older record: this one was written
+						// by a transaction that never committed
+						skipEntry = true
 					}
 				}
 
